@@ -118,13 +118,13 @@ func c07Judge(in []byte, crc bool, identical *atomic.Int64) (string, string) {
 		rs  []int
 		src int // the compressed stream reaches the library in pieces of this many bytes (0: at once)
 	}
-	for _, pt := range []pattern{{[]int{len(in) + 1}, 0}, {[]int{1}, 0}, {[]int{7}, 0}, {[]int{512}, 0}, {[]int{3, 61}, 0}, {[]int{len(in) + 1}, 1}, {[]int{512}, 3}, {[]int{7}, 5}} {
+	for _, pt := range []pattern{{[]int{len(in) + 1}, 0}, {[]int{1}, 0}, {[]int{7}, 0}, {[]int{512}, 0}, {[]int{3, 61}, 0}, {[]int{len(in) + 1}, 1}, {[]int{512}, 3}, {[]int{7}, 5}, {[]int{len(in) + 1}, -1}, {[]int{64}, -2}, {[]int{1}, -4096}} {
 		rs := pt.rs
-		if len(in) > 5000 && (rs[0] == 1 || pt.src == 1) {
+		if len(in) > 5000 && (rs[0] == 1 || pt.src == 1 || pt.src == -2) {
 			continue
 		}
 		o := libDecode(enc, crc, rs, pt.src, len(in)+4096)
-		tag := fmt.Sprintf(" (read sizes %v, source delivered in pieces of %d)", rs, pt.src)
+		tag := fmt.Sprintf(" (read sizes %v, source delivered in pieces of %d; negative: the last piece together with io.EOF)", rs, pt.src)
 		switch {
 		case o.Panic != "":
 			return "lib-decode-panic|" + o.Site, o.Panic + tag
